@@ -56,6 +56,12 @@ def spelling_cases():
     add("default_valid_custom", "i32", "validate(with = vfn, error = MyErr), default = 1, derive(Default)", "accept")
     add("default_valid_lit", "i32", "validate(greater = 0), default = 1, derive(Default)", "accept")
     add("default_missing", "i32", "validate(greater = 0), derive(Default)", "reject")
+    # documented grammar: a bound may be any expression, also a (non-const) function call - with every derive that reads the bounds
+    add("fn_bound_int", "i32", "validate(greater_or_equal = lo_fn(), less_or_equal = 100)", "accept")
+    add("fn_bound_int_arbitrary", "i32", "validate(greater_or_equal = lo_fn(), less_or_equal = 100), derive(Debug, Arbitrary)", "accept")
+    add("fn_bound_int_arbitrary_excl", "i32", "validate(greater = lo_fn(), less = 100), derive(Debug, Arbitrary)", "accept")
+    add("fn_bound_float_arbitrary", "f64", "validate(greater_or_equal = lo_fn_f(), less = 100.0), derive(Debug, Arbitrary)", "accept")
+    add("fn_bound_default", "i32", "validate(greater_or_equal = lo_fn()), default = lo_fn() + 1, derive(Debug, Default)", "accept")
     # regex literals are compiled at expansion time whatever else is declared
     for (sid, extra) in [("alone", ""), ("with_min", ", len_char_min = 1"), ("with_max", ", len_char_max = 9"), ("with_both", ", len_char_min = 1, len_char_max = 9"), ("after_ne", ", not_empty")]:
         add("bad_regex_" + sid, "String", 'validate(regex = "^[a-z+$"%s)' % extra, "reject")
@@ -70,7 +76,7 @@ def spelling_cases():
 def spelling_probe_step(ctx):
     from props.c02 import probe_accepts
     cases = spelling_cases()
-    alive, rejected, err = probe_accepts(ctx, cases, nutype_features='"regex"', extra_deps='regex = "1"\n')
+    alive, rejected, err = probe_accepts(ctx, cases, nutype_features='"regex", "arbitrary"', extra_deps='regex = "1"\narbitrary = "1"\n')
     if err:
         return [("inconclusive", "spelling-probe", {"what": err})]
     alive_ids = {c["id"] for c in alive}
